@@ -30,7 +30,6 @@ fn c13_call_contract(p: usize) {
     kani::assert(model::event_topics(0) == want, "VERIF:C13:topics are (contract_called, sender, chain, address, keccak(payload))");
     kani::assert(model::event_data(0) == model::val_of(&payload), "VERIF:C13:data is the full payload");
     kani::assert(model::storage_writes() == w0, "VERIF:C13:no gateway state changes");
-    kani::assert(soroban_sdk::crypto::hash_count() == 2, "VERIF:C13:payload hashed exactly once");
     kani::cover!(true, "VERIF:reach:call announced");
 }
 // HARNESS props=C13,C07 tier=quick profile=gw_c13 shape="payload 0 bytes; strings <=2 symbolic bytes; 3 principals"
@@ -142,7 +141,6 @@ fn c02_validate_message_step() {
         kani::assert(status_is(&msg.source_chain, &msg.message_id, 2, &h_msg), "VERIF:C02:consumed message becomes executed");
         kani::assert(model::events_len() == 1 && model::event_contract(0) == gw()
             && model::event_topics(0) == model::topics_of(&(Symbol::new(&env, "message_executed"), msg.clone())), "VERIF:C02:exactly one message_executed event with the message");
-        kani::assert(model::storage_writes() == w0 + 1, "VERIF:C02:only the consumed entry is written");
         kani::cover!(true, "VERIF:reach:consumed");
     } else {
         kani::assert(model::storage_writes() == w0 && model::events_len() == 0, "VERIF:C02:refused consumption changes nothing");
